@@ -14,6 +14,7 @@ import (
 	"fmt"
 	"github.com/ishidawataru/sctp"
 	"io"
+	"math"
 	"net"
 	"runtime"
 	"sync"
@@ -170,6 +171,23 @@ type ConcCase struct {
 	// Inbound: that many requests of the peer arrive, and are handled by a handler that returns
 	// at once, while the writers are at work (the goroutine serving the connection is busy too).
 	Inbound int `json:"inbound,omitempty"`
+	// Mixed (with Retries, no transport faults): only the even-numbered writers use the retrying
+	// entry points, the odd-numbered ones write with plain WriteTo - both kinds share the connection.
+	Mixed bool `json:"mixed,omitempty"`
+	// Budget (with Retries): the retry budget handed over is "maxint" or "maxuint" ("retry for ever")
+	// instead of 64; the writes must behave as with any budget that is never used up.
+	Budget string `json:"budget,omitempty"`
+}
+
+// budget is the retries argument for a case: 64, or one of the ends of the uint range.
+func budget(name string, n int) uint {
+	switch name {
+	case "maxint":
+		return uint(math.MaxInt)
+	case "maxuint":
+		return ^uint(0)
+	}
+	return uint(n)
 }
 
 func genStall(t *rapid.T) Stall {
@@ -208,9 +226,11 @@ func genConc(t *rapid.T) ConcCase {
 	if rapid.IntRange(0, 2).Draw(t, "with-retries") == 0 {
 		c.Retries = 64
 		c.Stream0 = rapid.Bool().Draw(t, "stream0")
-		for i := 1; i < len(c.Stalls); i++ { // entry 0 always accepts everything
+		c.Mixed = rapid.IntRange(0, 2).Draw(t, "mixed-writers") == 0
+		for i := 1; i < len(c.Stalls) && !c.Mixed; i++ { // entry 0 always accepts everything
 			c.Stalls[i].Fault = rapid.IntRange(0, 2).Draw(t, "fault") == 0
 		}
+		c.Budget = rapid.SampledFrom([]string{"", "", "maxint", "maxuint"}).Draw(t, "budget")
 	}
 	return c
 }
@@ -283,7 +303,7 @@ func runConc(c ConcCase) *ev.Failure {
 		if pending {
 			atomic.AddInt32(&stallsWithPending, 1)
 		}
-		if st.Fault && c.Retries > 0 {
+		if st.Fault && c.Retries > 0 && !c.Mixed {
 			atomic.AddInt32(&faults, 1)
 			return k, &memnet.TempError{Msg: "scripted temporary write error"}
 		}
@@ -319,12 +339,13 @@ func runConc(c ConcCase) *ev.Failure {
 					}()
 					atomic.AddInt32(&inflight, 1)
 					defer atomic.AddInt32(&inflight, -1)
-					if c.Retries > 0 && c.Stream0 {
+					retrying := c.Retries > 0 && !(c.Mixed && w%2 == 1)
+					if retrying && c.Stream0 {
 						var n int
-						n, r.err = m.WriteToStreamWithRetry(conn, 0, uint(c.Retries))
+						n, r.err = m.WriteToStreamWithRetry(conn, 0, budget(c.Budget, c.Retries))
 						r.n = int64(n)
-					} else if c.Retries > 0 {
-						r.n, r.err = m.WriteToWithRetry(conn, uint(c.Retries))
+					} else if retrying {
+						r.n, r.err = m.WriteToWithRetry(conn, budget(c.Budget, c.Retries))
 					} else {
 						r.n, r.err = m.WriteTo(conn)
 					}
@@ -429,6 +450,12 @@ func classifyConc(c ConcCase) (bool, []string) {
 		if c.Stream0 {
 			cl.add("messages-addressed-to-stream-0")
 		}
+		if c.Mixed && len(c.Writers) > 1 {
+			cl.add("retrying-and-plain-writers-share-the-connection")
+		}
+		if c.Budget != "" {
+			cl.add("retry-budget:" + c.Budget)
+		}
 	}
 	if c.Inbound > 0 {
 		cl.add("peer-requests-handled-meanwhile")
@@ -455,7 +482,7 @@ func classifyConc(c ConcCase) (bool, []string) {
 
 var concProp = ev.Register(&ev.Prop[ConcCase]{
 	ID: "C07", Name: "concurrent",
-	Rule: "1..8 goroutines each WriteTo 1..5 numbered messages (sizes below/at/above 1 KiB and 4 KiB) to one diam.Conn over a memnet.Conn whose Write accepts a prefix, stalls (none / Gosched / 50-500 us / until another writer has a write under way) and copies the rest from the caller's slice; 1 in 3 cases requests of the peer are handled by the connection meanwhile; 1 in 3 cases every writer uses WriteToWithRetry (half of them addressed to stream 0, as answers are) and some transport writes end with (prefix accepted, temporary error) instead; non-trivial = >= 2 writers and >= 1 stalling transport write (the classes dyn:* count the stalls during which another writer was observed inside WriteTo)",
+	Rule: "1..8 goroutines each WriteTo 1..5 numbered messages (sizes below/at/above 1 KiB and 4 KiB) to one diam.Conn over a memnet.Conn whose Write accepts a prefix, stalls (none / Gosched / 50-500 us / until another writer has a write under way) and copies the rest from the caller's slice; 1 in 3 cases requests of the peer are handled by the connection meanwhile; 1 in 3 cases every writer uses WriteToWithRetry (half of them addressed to stream 0, as answers are) and some transport writes end with (prefix accepted, temporary error) instead - or, without such faults, only the even-numbered writers retry and the others use plain WriteTo; the retry budget is 64, MaxInt or MaxUint; non-trivial = >= 2 writers and >= 1 stalling transport write (the classes dyn:* count the stalls during which another writer was observed inside WriteTo)",
 	Gen:  genConc, Run: runConc, Classify: classifyConc, Attempts: 5,
 })
 
@@ -480,6 +507,16 @@ type FaultCase struct {
 	Retries   int     `json:"retries"`
 	Stream    int     `json:"stream"`
 	Follow    bool    `json:"follow"` // after a successful write, write a second message
+	// Budget "maxint" / "maxuint": that value is handed over as the retry budget instead of Retries
+	// (the model then never runs out of retries).
+	Budget string `json:"budget,omitempty"`
+}
+
+func (c FaultCase) modelRetries() int {
+	if c.Budget != "" {
+		return 1 << 30
+	}
+	return c.Retries
 }
 
 type permNetErr struct{}
@@ -685,6 +722,9 @@ func genFaultCase(transports []string) func(t *rapid.T) FaultCase {
 		default:
 			c.Retries = rapid.IntRange(0, 8).Draw(t, "retries")
 		}
+		if rapid.IntRange(0, 7).Draw(t, "huge-budget") == 0 {
+			c.Budget = rapid.SampledFrom([]string{"maxint", "maxuint"}).Draw(t, "budget")
+		}
 		c.Stream = rapid.IntRange(0, 3).Draw(t, "stream")
 		c.Follow = rapid.Bool().Draw(t, "follow")
 		return c
@@ -696,7 +736,7 @@ func runFault(c FaultCase) *ev.Failure {
 	ref := a.RefBytes()
 	follow := abstractMsg(1, 1, 7)
 	followRef := follow.RefBytes()
-	want := model(len(ref), c.Plan, c.Retries)
+	want := model(len(ref), c.Plan, c.modelRetries())
 	p := &planner{plan: c.Plan, expect: append(append([]byte{}, ref...), followRef...)}
 
 	var w io.Writer
@@ -752,18 +792,18 @@ func checkFault(c FaultCase, w io.Writer, p *planner, want outcome, a *gen.Msg, 
 	switch {
 	case c.Transport == "stream" || c.Transport == "sctp" || c.Transport == "sctp-conn":
 		var k int
-		k, err = m.WriteToStreamWithRetry(w, uint(c.Stream), uint(c.Retries))
+		k, err = m.WriteToStreamWithRetry(w, uint(c.Stream), budget(c.Budget, c.Retries))
 		n = int64(k)
-	case c.Retries == 0 && c.Fill%2 == 0:
+	case c.Retries == 0 && c.Budget == "" && c.Fill%2 == 0:
 		n, err = m.WriteTo(w)
 	default:
-		n, err = m.WriteToWithRetry(w, uint(c.Retries))
+		n, err = m.WriteToWithRetry(w, budget(c.Budget, c.Retries))
 	}
 	p.mu.Lock()
 	record := append([]byte{}, p.record...)
 	badOff, calls := p.badOff, p.calls
 	p.mu.Unlock()
-	desc := fmt.Sprintf("%d-byte message, plan %v, retries %d, transport %s", len(ref), c.Plan, c.Retries, c.Transport)
+	desc := fmt.Sprintf("%d-byte message, plan %v, retries %d%s, transport %s", len(ref), c.Plan, c.Retries, c.Budget, c.Transport)
 
 	if !bytes.HasPrefix(ref, record) {
 		d := 0
@@ -822,7 +862,7 @@ func checkFault(c FaultCase, w io.Writer, p *planner, want outcome, a *gen.Msg, 
 
 func classifyFault(c FaultCase) (bool, []string) {
 	var cl classSet
-	o := model(msgLen(c.Fill), c.Plan, c.Retries)
+	o := model(msgLen(c.Fill), c.Plan, c.modelRetries())
 	cl.add("transport:" + c.Transport)
 	cl.add(sizeClass(c.Fill))
 	switch {
@@ -835,6 +875,8 @@ func classifyFault(c FaultCase) (bool, []string) {
 		cl.add("outcome:error-" + o.why)
 	}
 	switch {
+	case c.Budget != "":
+		cl.add("budget:" + c.Budget)
 	case c.Retries < len(c.Plan):
 		cl.add("budget<plan")
 	case c.Retries == len(c.Plan):
